@@ -15,7 +15,9 @@ Tie to the source:
       analytic partial derivatives / kinetic orders (Fractions; tolerance = proved truncation bound
       2^n d^2 + 1e-6 rounding allowance), response coefficients of power-law chains against the
       closed-form steady-state sensitivities (5e-2), parameters + initial values before/after
-      (exact), sequential == parallel.
+      (exact), sequential == parallel;
+  (4) 4th pass (harness/c18_indirect.py): parameters that act through derived parameters, initial-assignment
+      parameters, assigned initial values and parameter-dependent stoichiometric coefficients.
 """
 
 from __future__ import annotations
@@ -41,6 +43,10 @@ def code_of(name: str) -> int:
         return VAR_BASE + int(name[1:])
     if name.startswith("k") and name[1:].isdigit():
         return PAR_BASE + int(name[1:])
+    if name.startswith("a") and name[1:].isdigit():
+        return 300 + int(name[1:])  # initial-assignment parameters (harness/c18_indirect.py)
+    if name.startswith("q") and name[1:].isdigit():
+        return 400 + int(name[1:])  # derived parameters
     return 900 + (sum(map(ord, name)) % 50)  # deliberately unknown names
 
 
@@ -274,6 +280,11 @@ def build_model(net: dict):
 
     from harness.c18_fns import PowerLaw
 
+    if "comp" in net:
+        # 4th pass: computed parameters, assigned initial values, parameter-dependent stoichiometry
+        from harness.c18_indirect import build_imodel
+
+        return build_imodel(net)
     m = Model()
     m.add_variables(dict(net["vars"]))
     m.add_parameters(dict(net["pars"]))
@@ -937,7 +948,12 @@ def check(run: Run) -> None:
         "scanned parameter for response coefficients (sequential with recorded trace, parallel); a stream of TINY non-zero values "
         "(+-2^-11 .. 2^-40, mostly below 1e-8) for a scanned variable / parameter that enters a rate law with kinetic order 2 or 3, "
         "scaled and unscaled, model state and user-supplied `variables`, dyadic displacement (exact in-Coq comparison) and the default "
-        "1e-4 (oracle with the proved RELATIVE bound 2^n d^2). A case is non-trivial if some scanned quantity has kinetic order >= 1 in some reaction or the call is refused; "
+        "1e-4 (oracle with the proved RELATIVE bound 2^n d^2). 4th pass, own streams c18-indirect / c18-indirect-resp: parameters acting INDIRECTLY -- power-law networks "
+        "whose reactions read derived parameters (monomials / quotients of parameters, chained) and initial-assignment parameters, variables whose initial value is "
+        "an assignment, scaled and unscaled elasticities against the TOTAL kinetic order through the computed parameters (dyadic half also compared in Coq), and "
+        "response coefficients of chains with parameter-dependent yields (stoichiometry Derived(args=[n])) and conserved cycles whose initial value is assigned from "
+        "a parameter, rate constants plain / assigned / derived, scan order shuffled, an unused parameter, y0 subsets; sequential (every steady-state run's model "
+        "content predicted) and parallel. A case is non-trivial if some scanned quantity has kinetic order >= 1 in some reaction or the call is refused; "
         "distinct by content"
     )
     proofs_ok = run.check_proofs(AREA, PROPS)
@@ -946,7 +962,7 @@ def check(run: Run) -> None:
         "fact extractor harness/c18.py::extract_facts (fail-closed: every statement of the three routines must match a known normalised text)",
         "modelled, not verified: CPython's evaluation of the rate functions (the flux function is a Section variable; instantiated with exact power laws), binary64 rounding (all theorems are over Q; the exact comparison uses dyadic inputs that are exact in binary64), the steady-state solver (Section variable `ss`: a deterministic function of parameters and initial values), pickling = deep copy and pebble's ordered map (parallel run = every worker on a copy of the caller's model)",
         "errors (KeyError for unknown names) are modelled as an outcome without the model content at the time of the error",
-        "assignment-defined parameters / initial values and the `time` argument are outside the model (harness networks use plain values; time is passed through)",
+        "assignment-defined parameters, derived parameters and assigned initial values: modelled for the elasticities as computed parameters re-evaluated at every flux evaluation (McaIndirect.v `ifluxes`, compared in Coq on the dyadic half of the indirect stream) and as regression models (`iworker`, `skip_result`); the response coefficients of such models are validated by the closed-form oracle (harness/c18_indirect.py), not proved; the `time` argument is passed through",
         "correspondence harness: literal printer, recorder wrapped around mca._steady_state_worker, coqc output parser",
         "coq/mca/ExpectedFacts.v is a hand-edited switch (expected displacement rule: QuotCentralRel = snapshot with finding c18-zero-state, QuotCentralRelAbs0 = after fixes/C18-zero-state.diff), kept consistent with known_findings.d/C18.json by tools/c18_switch.py; the oracle judges cells at a zero value only under the repaired rule",
         "response coefficients: proved for the closed-form steady states of chain / branch point / cycle (Moebius dependence on one rate constant; the closed form is THE steady state of the written-out right-hand side); that the solver returns that steady state, and its accuracy (amplified by 1/(2 d)), is validated at 5e-2, not proved",
@@ -1026,6 +1042,65 @@ def check(run: Run) -> None:
         if i < 1:
             run.sample({"case": case, "out": res["out"]})
 
+    # ---- parameters acting indirectly (4th pass; own random streams, the cases above and below stay the same) -------
+    from harness import c18_indirect as ind
+
+    irng = common.rng_for(run.seed, "c18-indirect")
+    n_ind_exact = 500 if thorough else 130
+    n_ind_float = 400 if thorough else 90
+    ivar_coq: list[tuple[str, dict]] = []
+    ipar_coq: list[tuple[str, dict]] = []
+    icells = icells_ind = idiscard = n_ind_viol = 0
+    ind_cases = [ind.deep(c) for c in ind.IELAST_CORPUS]
+    for i in range(n_ind_exact + n_ind_float):
+        ind_cases.append(ind.gen_ielast_case(irng, i < n_ind_exact))
+    for i, case in enumerate(ind_cases):
+        exact = case["d"] is not None and i >= len(ind.IELAST_CORPUS) and i - len(ind.IELAST_CORPUS) < n_ind_exact
+        res = run_elast(case)
+        bump(f"indirect/{case['kind']}/{'exact' if exact else 'float'}/{'scaled' if case['normalized'] else 'unscaled'}")
+        bump("outcome/" + res["out"][0])
+        run.count_case(("ielast", case), nontrivial=True)
+        bad, st = ind.ielast_oracle(case, res)
+        icells += st["cells"]
+        icells_ind += st["indirect_cells"]
+        if bad and n_ind_viol < 3:
+            n_ind_viol += 1
+            run.violation(bad, {"kind": "ielast", "case": case})
+        if exact and res["out"][0] == "Ok":
+            if not st["exact_ok"]:
+                idiscard += 1
+                continue
+            (ivar_coq if case["kind"] == "var" else ipar_coq).append((ind.coq_ielast_case(case, res), case))
+        if i == 0:
+            run.sample({"case": case, "out": res["out"]})
+    rrng = common.rng_for(run.seed, "c18-indirect-resp")
+    n_iresp = 110 if thorough else 26
+    n_iresp_par = 14 if thorough else 4
+    ircells = ircells_ind = irnan = itrace = n_iresp_viol = 0
+    iresp_cases = [ind.deep(c) for c in ind.IRESP_CORPUS] + [ind.gen_iresp_case(rrng, j % 3 == 0) for j in range(n_iresp)]
+    for i, case in enumerate(iresp_cases):
+        seq = run_resp(case, parallel=False, record=True)
+        with_par = i == 0 or (len(ind.IRESP_CORPUS) <= i < len(ind.IRESP_CORPUS) + n_iresp_par)
+        par = run_resp(case, parallel=True, record=False) if with_par else None
+        bump(f"indirect-resp/{case['net']['family']}/{'y0' if case['y0'] else 'no-y0'}/{'par+seq' if par else 'seq'}")
+        bump("resp-outcome/" + seq["out"][0])
+        run.count_case(("iresp", case, par is not None), nontrivial=True)
+        bad, st = ind.iresp_oracle(case, seq, par)
+        ircells += st["cells"]
+        ircells_ind += st["indirect_cells"]
+        irnan += st["nan_cells"]
+        itrace += st["trace_points"]
+        if bad and n_iresp_viol < 3:
+            n_iresp_viol += 1
+            run.violation(bad, {"kind": "iresp", "case": case, "parallel": par is not None})
+        if i == 0:
+            run.sample({"case": case, "out": seq["out"], "trace_len": len(seq["trace"])})
+    run.coverage["indirect"] = {"elasticity_cells_judged": icells, "of_which_through_computed_parameters": icells_ind,
+                                "exact_cases_discarded_not_binary64_exact": idiscard,
+                                "response_cells_judged": ircells - irnan, "response_cells_nan": irnan,
+                                "response_cells_of_indirect_parameters": ircells_ind,
+                                "steady_state_runs_checked_against_predicted_model_content": itrace}
+
     # ---- response coefficients ---------------------------------------------------------
     resp_coq: list[tuple[str, dict]] = []
     n_resp_exact = 160 if thorough else 40
@@ -1093,11 +1168,27 @@ def check(run: Run) -> None:
         name = f"c18_{k:03d}"
         files[name] = corr_file([c for c, _ in v], [c for c, _ in p], [c for c, _ in r])
         layout[name] = (v, p, r)
+    ilayout: dict[str, tuple[list, list]] = {}
+    for k in range(max(math.ceil(len(ivar_coq) / size), math.ceil(len(ipar_coq) / size), 1)):
+        v, p = ivar_coq[k * size:(k + 1) * size], ipar_coq[k * size:(k + 1) * size]
+        name = f"c18i_{k:03d}"
+        files[name] = ind.corr_file([c for c, _ in v], [c for c, _ in p])
+        ilayout[name] = (v, p)
     out = common.coq_eval_many(AREA, files, timeout_s=900)
     mism = 0
     for name in sorted(files):
         ok, txt = out[name]
         lists = common.parse_eval_list(txt) if ok else None
+        if name in ilayout:
+            if not ok or lists is None or len(lists) != 2:
+                run.broken_correspondence.append(f"correspondence shard {name} did not evaluate: {txt[-300:]}")
+                continue
+            for which, idxs, group in zip(("variable_elasticities (computed parameters)", "parameter_elasticities (computed parameters)"), lists, ilayout[name]):
+                for j in idxs:
+                    mism += 1
+                    if len(run.broken_correspondence) < 5:
+                        run.broken_correspondence.append(f"model/implementation disagree on {which} case: {group[j][1]}")
+            continue
         if not ok or lists is None or len(lists) != 3:
             run.broken_correspondence.append(f"correspondence shard {name} did not evaluate: {txt[-300:]}")
             continue
@@ -1106,10 +1197,11 @@ def check(run: Run) -> None:
                 mism += 1
                 if len(run.broken_correspondence) < 5:
                     run.broken_correspondence.append(f"model/implementation disagree on {which} case: {group[j][1]}")
-    total = len(var_coq) + len(par_coq) + len(resp_coq)
+    total = len(var_coq) + len(par_coq) + len(resp_coq) + len(ivar_coq) + len(ipar_coq)
     run.coverage["traces_validated_against_impl"] = total - mism
     run.coverage["correspondence_mismatches"] = mism
-    run.coverage["correspondence_cases"] = {"var": len(var_coq), "par": len(par_coq), "resp_traces": len(resp_coq)}
+    run.coverage["correspondence_cases"] = {"var": len(var_coq), "par": len(par_coq), "resp_traces": len(resp_coq),
+                                            "var_computed_parameters": len(ivar_coq), "par_computed_parameters": len(ipar_coq)}
 
     # ---- known findings --------------------------------------------------------------------------
     for f in common.load_known_findings("C18"):
@@ -1186,6 +1278,25 @@ def replay(rep: dict) -> int:
         seq = run_resp(case, parallel=False, record=False)
         par = run_resp(case, parallel=True, record=False) if r.get("parallel") else None
         bad, _ = resp_oracle(case, seq, par)
+        print("sequential:", seq["out"], "\nbefore:", seq["before"], "\nafter: ", seq["after"], "\noracle:", bad or "property holds on this input")
+        return 1 if bad else 0
+    if kind == "ielast":
+        from harness import c18_indirect as ind
+
+        case = r["case"]
+        case["net"] = ind.normalise(case["net"])
+        res = run_elast(case)
+        bad, _ = ind.ielast_oracle(case, res)
+        print("outcome:", res["out"], "\nbefore:", res["before"], "\nafter: ", res["after"], "\noracle:", bad or "property holds on this input")
+        return 1 if bad else 0
+    if kind == "iresp":
+        from harness import c18_indirect as ind
+
+        case = r["case"]
+        case["net"] = ind.normalise(case["net"])
+        seq = run_resp(case, parallel=False, record=True)
+        par = run_resp(case, parallel=True, record=False) if r.get("parallel") else None
+        bad, _ = ind.iresp_oracle(case, seq, par)
         print("sequential:", seq["out"], "\nbefore:", seq["before"], "\nafter: ", seq["after"], "\noracle:", bad or "property holds on this input")
         return 1 if bad else 0
     if kind == "mc":
